@@ -819,7 +819,12 @@ class Summaries:
                 ca = st.new_cell(a)
                 cb = st.new_cell(b)
                 if f is None:
-                    yield from I.truth(st, self.num(st, a) < self.num(st, b))
+                    va, vb = I.val(st, a), I.val(st, b)
+                    if isinstance(va, StrV) and isinstance(vb, StrV):
+                        # any total order that is consistent with equality (strings are opaque ids)
+                        yield from I.truth(st, va.id < vb.id)
+                    else:
+                        yield from I.truth(st, self.num(st, a) < self.num(st, b))
                     return
                 for st2, o in I.call_callable(st, f, [Ref(ca, ()), Ref(cb, ())]):
                     for st3, oc in self.conc(st2, o):
@@ -864,6 +869,23 @@ class Summaries:
             yield from rec(st, [], list(v.items))
         A('Vec::retain', r'Vec::retain$', h_retain)
 
+        def h_dedup(st, fn, callee, args, dty):
+            r = args[0]
+            v = I.val(st, r)
+
+            def rec(st, kept, rest):
+                if not rest:
+                    I.store(st, r, VecV(kept, v.elem))
+                    yield st, UNIT
+                    return
+                if not kept:
+                    yield from rec(st, [rest[0]], rest[1:])
+                    return
+                for st2, t in I.truth(st, self.struct_eq(st, kept[-1], rest[0])):
+                    yield from rec(st2, kept if t else kept + [rest[0]], rest[1:])
+            yield from rec(st, [], list(v.items))
+        A('Vec::dedup', r'Vec::dedup$', h_dedup)
+
         # ---------------- strings
         A('str::is_empty', r'str::is_empty$|String::is_empty$|^core::str::is_empty$',
           simple(lambda st, s: eqv(self.to_str(st, s).id, I.intern(''))))
@@ -877,6 +899,12 @@ class Summaries:
             yield st2, err(Agg('ContractError', (), 0, 'InvalidLogo'))
             yield st, ok(UNIT)
         A('verify_logo (havoc)', r'^verify_logo$|cw20_base::contract::verify_logo$', h_verify_logo)
+
+        # token name / symbol syntax checks work on string bytes, which SMIR does not model: arbitrary verdict
+        def h_valid_str(st, fn, callee, args, dty):
+            b = I.fresh('valid_syntax', 'bool')
+            yield st, b
+        A('is_valid_name/symbol (havoc)', r'(^|::)(is|has)_valid_(name|symbol)$', h_valid_str)
 
         # ---------------- cosmwasm api
         A('addr_validate', r'Api>::addr_validate$', simple(lambda st, api, s: ok(Agg('Addr', (self.to_str(st, s),)))))
